@@ -33,7 +33,7 @@ TABLED = {
     'R-C20-2/<verifier-core>/drop/std::vec::Vec<curve25519_dalek::Scalar>/nonce+seed':
         'temp_masks is moved into ExtendedMask::assign on the only feasible path; it is dropped only if nonce()/try_into fails, which needs a '
         'label > 16 bytes or an index >= 2^32 (labels are constants <= 5 bytes, indices are < 64) ',
-    'R-C20-2/extended_mask::ExtendedMask::assign/drop/std::vec::Vec<curve25519_dalek::Scalar>/param:blindings':
+    'R-C20-2/extended_mask::ExtendedMask::assign/drop/std::vec::Vec<curve25519_dalek::Scalar>/param#2':
         'error branch of the public constructor drops the caller\'s vector; at the verifier\'s call site the length is the extension degree by '
         'construction, so the branch cannot execute there; external callers own the buffer they pass',
 }
@@ -293,7 +293,7 @@ def run(ctx):
                 term = ctx.eng.place(b, evalbb, TERM_IDX, place)
                 src = taint.sources(term)
                 if 1 <= place['l'] <= b.argc:
-                    role = 'param:%s' % b.local_name(place['l'])
+                    role = 'param#%d' % place['l']
                 else:
                     role = '+'.join(sorted({s.split('-')[0] for s in src})) or 'clean'
                 fn_role = role_name.get(b.path, b.path)
